@@ -408,6 +408,11 @@ pub struct TermConn {
     cur: Vec<u8>,
     awaiting_ack: bool,
     closed: bool,
+    /// the connection closes as soon as the bytes being delivered have been read
+    close_after_cur: bool,
+    /// a Close step directly behind a Raw step takes effect with the last byte of the Raw step
+    /// (set by a Note("mode:close-eagerly") step)
+    close_eagerly: bool,
     reset: bool,
     silent: bool,
     read_waker: Option<Waker>,
@@ -444,6 +449,12 @@ impl AsyncRead for TermConn {
                 let n = self.cur.len().min(buf.remaining());
                 buf.put_slice(&self.cur[..n]);
                 self.cur.drain(..n);
+                if self.cur.is_empty() && self.close_after_cur {
+                    // the terminal hangs up right behind these bytes: whatever the client writes next fails
+                    self.close_after_cur = false;
+                    self.closed = true;
+                    self.ev(ConnEv::TermClosed);
+                }
                 return Poll::Ready(Ok(()));
             }
             if self.reset {
@@ -471,6 +482,10 @@ impl AsyncRead for TermConn {
                     self.out.pop_front();
                     self.cur = b;
                     self.ev(ConnEv::Sent(label));
+                    if matches!(self.out.front(), Some(Step::Close)) && self.close_eagerly {
+                        self.out.pop_front();
+                        self.close_after_cur = true;
+                    }
                 }
                 Step::Delay(d) => {
                     if self.sleep.is_none() {
@@ -501,7 +516,11 @@ impl AsyncRead for TermConn {
                 }
                 Step::Note(n) => {
                     self.out.pop_front();
-                    self.ev(ConnEv::Sent(n));
+                    if n == "mode:close-eagerly" {
+                        self.close_eagerly = true;
+                    } else {
+                        self.ev(ConnEv::Sent(n));
+                    }
                 }
             }
         }
@@ -674,7 +693,7 @@ impl Sim {
                 (Accept::Never, _) => Box::pin(NeverFut),
                 (Accept::Refuse, _) => Box::pin(SendFut(std::future::ready(Err(std::io::Error::new(std::io::ErrorKind::ConnectionRefused, "refused by the simulated terminal"))))),
                 (Accept::Yes, id) => {
-                    let conn = TermConn { id, w: w3, inbuf: vec![], out: VecDeque::new(), cur: vec![], awaiting_ack: false, closed: false, reset: false, silent: false, read_waker: None, sleep: None };
+                    let conn = TermConn { id, w: w3, inbuf: vec![], out: VecDeque::new(), cur: vec![], awaiting_ack: false, closed: false, close_after_cur: false, close_eagerly: false, reset: false, silent: false, read_waker: None, sleep: None };
                     let b: Box<dyn VerifIo> = Box::new(conn);
                     Box::pin(SendFut(std::future::ready(Ok(b))))
                 }
